@@ -343,6 +343,9 @@ impl World {
                     if let (Some(u), Some(pend)) = (r.2, r.3) {
                         if u as u32 != mo.unacked || pend != mo.pending {
                             let clause = match op {
+                                // an effect on a resource other than the one
+                                // the operation addressed is C14's matter
+                                1 | 2 | 3 if touched.map_or(false, |t| t != p) => ("C14", "other-resource-untouched"),
                                 1 => ("C14", "replace-in-place"),
                                 3 if !what.contains("CON") => ("C15", "non-never-counts"),
                                 4 if mo.unacked == 0 && u != 0 => ("C15", "ack-resets"),
@@ -365,7 +368,7 @@ impl World {
                                     self.viol.push(Violation::new("C14", "other-resource-untouched", format!("{} took effect on one resource and also changed observer ep{} of another resource {:?}: count {} pending {:?}, was {} / {:?}", what, r.0, p, u, pend, mo.unacked, mo.pending)).with_sig("ack-crosses-resources"));
                                 }
                             }
-                            if op == 1 {
+                            if op == 1 && clause.1 == "replace-in-place" {
                                 // C15 counts "since its last acknowledgement
                                 // or registration": a count that survives a
                                 // registration breaks C15 as well as C14
@@ -866,6 +869,9 @@ pub fn run(ch: &mut Ch, verbose: bool) -> Outcome {
                     None => (None, vec![]),
                     Some(r) => (Some(r.sequence), r.observers.iter().map(|o| (o.endpoint, o.token.clone())).collect()),
                 };
+                // ordering obligations exist for a resource that is observed
+                // under this very path name according to the reference model
+                let model_observed = w.model.res.get(&path).map_or(false, |r| !r.obs.is_empty());
                 let payload = format!("v{}", idx).into_bytes();
                 for (ep, token) in &observers {
                     let seq = seq_before.unwrap_or(0);
@@ -907,13 +913,17 @@ pub fn run(ch: &mut Ch, verbose: bool) -> Outcome {
                         }
                     }
                     // sequences sent to one registration strictly increase
+                    // (a registration the reference model knows under this
+                    // very path name)
                     let key = (path.clone(), *ep, token.clone());
-                    if let Some(prev) = w.last_seq.get(&key) {
+                    if let Some(prev) = w.last_seq.get(&key).filter(|_| model_observed) {
                         if seq <= *prev {
                             w.viol.push(Violation::new("C15", "seq-plus-one", format!("registration ep{} on {:?} was sent sequence {} after {}", ep, path, seq, prev)));
                         }
                     }
-                    w.last_seq.insert(key, seq);
+                    if model_observed {
+                        w.last_seq.insert(key, seq);
+                    }
                     // a registration that ended (eviction, cancellation, new
                     // token) ends its ordering obligation with it
                     let live_now: Vec<(Ep, Vec<u8>)> = observers.clone();
@@ -929,7 +939,7 @@ pub fn run(ch: &mut Ch, verbose: bool) -> Outcome {
                 // successive notifications of a resource are strictly ordered
                 // (also across the end of one registration and the start of
                 // another: "successive notifications built from it")
-                if !observers.is_empty() {
+                if !observers.is_empty() && model_observed {
                     let seq = seq_before.unwrap_or(0);
                     if let Some(prev) = w.last_round_seq.get(&path) {
                         if seq <= *prev {
